@@ -221,6 +221,7 @@ type VerifNDPFake struct {
 	Out    []VerifNDPSent
 	Joined map[string]bool
 	Errors []string // group operations the kernel would have refused
+	Closed bool
 }
 
 var (
@@ -231,7 +232,91 @@ var (
 func verifNDPFakeOf(n *ndpResponder) *VerifNDPFake {
 	verifNDPMu.Lock()
 	defer verifNDPMu.Unlock()
-	return verifNDPFakes[n]
+	if f := verifNDPFakes[n]; f != nil {
+		return f
+	}
+	if n.conn == nil {
+		// a responder the real updateInterfaces created on a virtual interface (verifNDPDial returned no connection)
+		if f := VerifVirtualNDP[n.intf]; f != nil {
+			verifNDPFakes[n] = f
+			return f
+		}
+	}
+	return nil
+}
+
+// ---- virtual interfaces for the real updateInterfaces -------------------------------------------------------------
+// VerifVirtualIfs, when non-nil, is what net.Interfaces() returns to updateInterfaces (R-call rewrite of announcer.go);
+// VerifVirtualAddrs gives the addresses of each; VerifVirtualNDP holds the in-memory connection a responder created on
+// a virtual interface gets (one per interface name, replaced by the harness before every execution).
+var (
+	VerifVirtualIfs   []net.Interface
+	VerifVirtualAddrs = map[string][]net.Addr{}
+	VerifVirtualNDP   = map[string]*VerifNDPFake{}
+	VerifNDPDials     int
+)
+
+func verifNetInterfaces() ([]net.Interface, error) {
+	if VerifVirtualIfs != nil {
+		return append([]net.Interface{}, VerifVirtualIfs...), nil
+	}
+	return net.Interfaces()
+}
+
+func verifIfAddrs(ifi net.Interface) ([]net.Addr, error) {
+	if VerifVirtualIfs != nil {
+		return VerifVirtualAddrs[ifi.Name], nil
+	}
+	return ifi.Addrs()
+}
+
+func verifNDPDial(ifi *net.Interface, addr ndp.Addr) (*ndp.Conn, net.IP, error) {
+	if VerifVirtualIfs != nil {
+		VerifNDPDials++
+		if VerifVirtualNDP[ifi.Name] == nil {
+			return nil, nil, fmt.Errorf("verif: no virtual connection for %s", ifi.Name)
+		}
+		return nil, nil, nil
+	}
+	return ndp.Dial(ifi, addr)
+}
+
+func verifNDPClose(n *ndpResponder) error {
+	if f := verifNDPFakeOf(n); f != nil {
+		f.mu.Lock()
+		f.Closed = true
+		f.Joined = map[string]bool{} // closing the socket leaves its groups
+		f.mu.Unlock()
+		return nil
+	}
+	return n.conn.Close()
+}
+
+// VerifUpdateInterfaces runs the real interface scan once.
+func (a *Announce) VerifUpdateInterfaces() { a.updateInterfaces() }
+
+// VerifNDPResponderNames lists the interfaces that have an NDP responder.
+func (a *Announce) VerifNDPResponderNames() []string {
+	a.RLock()
+	defer a.RUnlock()
+	var out []string
+	for _, r := range a.ndps {
+		out = append(out, r.intf)
+	}
+	sort.Strings(out)
+	return out
+}
+
+// VerifNDPIndex returns the index under which the responder of interface name is registered (-1: none).
+func (a *Announce) VerifNDPIndex(name string) int {
+	a.RLock()
+	defer a.RUnlock()
+	for i, r := range a.ndps {
+		if r.intf == name {
+			return i
+		}
+	}
+	return -1
 }
 
 // (the control message is typed interface{}: naming *ipv6.ControlMessage would make golang.org/x/net a direct dependency
@@ -329,6 +414,8 @@ func (a *Announce) VerifForgetFakeNDP() {
 		delete(verifNDPFakes, r)
 	}
 }
+
+func NewVerifNDPFake() *VerifNDPFake { return &VerifNDPFake{Joined: map[string]bool{}} }
 
 func (f *VerifNDPFake) Push(raw []byte, src net.IP) {
 	f.mu.Lock()
